@@ -59,8 +59,13 @@ KeyOf(e) == <<e.stream, e.fn>>
 EntryLists ==
     { <<e>> : e \in Pool }
     \cup { pr \in Pool \X Pool : KeyOf(pr[1]) # KeyOf(pr[2]) }
-    \cup (IF Big THEN { tr \in HealthyPool \X FaultPool \X HealthyPool : KeyOf(tr[1]) # KeyOf(tr[3]) } ELSE {})
+    \cup (IF Big THEN { tr \in HealthyPool \X FaultPool \X HealthyPool :
+                           Cardinality({KeyOf(tr[1]), KeyOf(tr[2]), KeyOf(tr[3])}) = 3 } ELSE {})
+    \* (a nested mapping cannot hold the same stream / module / test key twice in one context)
 ShortLists == { <<e>> : e \in Pool }
+TinyLists  == { <<GrossA>>, <<RocB>>, <<BoomA>>, <<AbsentC>>, <<ValidB>>, <<NoTestB>> }
+FewLists   == { <<GrossA>>, <<SpikeA>>, <<BoomA>>, <<BadParA>> }
+NoTriples  == { l \in EntryLists : Len(l) <= 2 }
 
 MCPInit ==
     \/ \E first \in EntryLists : PStart(NoTimeTable, << [win |-> <<NA, NA>>, entries |-> first] >>)
@@ -68,9 +73,10 @@ MCPInit ==
     \/ \E tb \in Tables, lay \in Layouts :
         \E first \in EntryLists :
             \/ Len(lay) = 1 /\ PStart(tb, << [win |-> lay[1], entries |-> first] >>)
-            \/ Len(lay) = 2 /\ \E second \in ShortLists :
+            \/ Len(lay) = 2 /\ \E second \in (IF Big THEN TinyLists ELSE ShortLists) :
                   PStart(tb, << [win |-> lay[1], entries |-> first], [win |-> lay[2], entries |-> second] >>)
-            \/ Len(lay) = 3 /\ \E second \in ShortLists, third \in ShortLists :
+            \/ Len(lay) = 3 /\ first \in NoTriples /\
+                  \E second \in (IF Big THEN TinyLists ELSE ShortLists), third \in (IF Big THEN FewLists ELSE ShortLists) :
                   PStart(tb, << [win |-> lay[1], entries |-> first], [win |-> lay[2], entries |-> second],
                                 [win |-> lay[3], entries |-> third] >>)
 MCPNext == PNext
